@@ -45,8 +45,8 @@ ASSUMPTIONS = [
 LEVEL_TEXT = ("generated schedules against real in-memory OpenSSL peers with a byte-stream equality oracle checked after "
               "every step; sampling, not exhaustive")
 LEVEL_NOTE = "trusts Python ssl/OpenSSL as peers and lib/driver's command interpretation"
-QUICK_N, THOROUGH_N = 12_000, 400_000
-BUDGET_S = (150, 3600)
+QUICK_N, THOROUGH_N = 24_000, 600_000
+BUDGET_S = (240, 3600)
 
 _TABLE = b"".join(hashlib.sha256(b"c14-%d" % i).digest() for i in range(2048))  # 64 KiB
 _P = 65521
@@ -309,7 +309,7 @@ def check_case(case, ctx):
         # the child now asks for the server connection: ServerTLSLayer opens it and performs TLS before replying
         T.inject(d, commands.OpenConnection(c.server))
         opened_by_child = True
-        pump_handshake([])
+        pump_handshake(list(reversed(case["hs"])))
     if d.crashed is not None:
         ctx.fail(_crash_bucket(d.crashed), repr(d.crashed))
         return
